@@ -606,12 +606,20 @@ func deriveTripCount(loop *Loop) {
 		if stepVal == nil {
 			return
 		}
+		// `i != limit` only counts (limit - start) iterations when the variable moves TOWARDS
+		// the limit; moving away it runs until the integer wraps around. That is only known
+		// when start and limit are both constants.
+		if startC == nil || limitC == nil {
+			loop.TripCount = &SCEVUnknown{Value: nil}
+			return
+		}
 		var rawCount SCEV
-		if stepVal.Cmp(big.NewInt(1)) == 0 {
+		if stepVal.Cmp(big.NewInt(1)) == 0 && startC.Cmp(limitC) < 0 {
 			rawCount = &SCEVGenericExpr{Op: token.SUB, X: limitSCEV, Y: iv.Start}
-		} else if stepVal.Cmp(big.NewInt(-1)) == 0 {
+		} else if stepVal.Cmp(big.NewInt(-1)) == 0 && startC.Cmp(limitC) > 0 {
 			rawCount = &SCEVGenericExpr{Op: token.SUB, X: iv.Start, Y: limitSCEV}
 		} else {
+			loop.TripCount = &SCEVUnknown{Value: nil}
 			return
 		}
 		// Clamp: max(0, count)
